@@ -1,6 +1,38 @@
--- shard 0 of the closeness / tick-gap sweep (C06 (c), (e)): |tick| in [0, 32768)
+-- shard 0 of the closeness / tick-gap sweep (C06 (c), (e)): |tick| in [0, 32768), 16 blocks of 2^11
 import Proofs.Lemmas.ClosePred
 namespace Demeter.TickClose
 set_option maxRecDepth 100000 in
-theorem close_shard_00 : chkN closeSweepPred 0 shardBits = true := by decide +kernel
+theorem close_blk_0 : chkN closeSweepPred 0 11 = true := by decide +kernel
+set_option maxRecDepth 100000 in
+theorem close_blk_2048 : chkN closeSweepPred 2048 11 = true := by decide +kernel
+set_option maxRecDepth 100000 in
+theorem close_blk_4096 : chkN closeSweepPred 4096 11 = true := by decide +kernel
+set_option maxRecDepth 100000 in
+theorem close_blk_6144 : chkN closeSweepPred 6144 11 = true := by decide +kernel
+set_option maxRecDepth 100000 in
+theorem close_blk_8192 : chkN closeSweepPred 8192 11 = true := by decide +kernel
+set_option maxRecDepth 100000 in
+theorem close_blk_10240 : chkN closeSweepPred 10240 11 = true := by decide +kernel
+set_option maxRecDepth 100000 in
+theorem close_blk_12288 : chkN closeSweepPred 12288 11 = true := by decide +kernel
+set_option maxRecDepth 100000 in
+theorem close_blk_14336 : chkN closeSweepPred 14336 11 = true := by decide +kernel
+set_option maxRecDepth 100000 in
+theorem close_blk_16384 : chkN closeSweepPred 16384 11 = true := by decide +kernel
+set_option maxRecDepth 100000 in
+theorem close_blk_18432 : chkN closeSweepPred 18432 11 = true := by decide +kernel
+set_option maxRecDepth 100000 in
+theorem close_blk_20480 : chkN closeSweepPred 20480 11 = true := by decide +kernel
+set_option maxRecDepth 100000 in
+theorem close_blk_22528 : chkN closeSweepPred 22528 11 = true := by decide +kernel
+set_option maxRecDepth 100000 in
+theorem close_blk_24576 : chkN closeSweepPred 24576 11 = true := by decide +kernel
+set_option maxRecDepth 100000 in
+theorem close_blk_26624 : chkN closeSweepPred 26624 11 = true := by decide +kernel
+set_option maxRecDepth 100000 in
+theorem close_blk_28672 : chkN closeSweepPred 28672 11 = true := by decide +kernel
+set_option maxRecDepth 100000 in
+theorem close_blk_30720 : chkN closeSweepPred 30720 11 = true := by decide +kernel
+theorem close_shard_00 : chkN closeSweepPred 0 shardBits = true :=
+  (chkN_join _ 0 14 (chkN_join _ 0 13 (chkN_join _ 0 12 (chkN_join _ 0 11 close_blk_0 close_blk_2048) (chkN_join _ 4096 11 close_blk_4096 close_blk_6144)) (chkN_join _ 8192 12 (chkN_join _ 8192 11 close_blk_8192 close_blk_10240) (chkN_join _ 12288 11 close_blk_12288 close_blk_14336))) (chkN_join _ 16384 13 (chkN_join _ 16384 12 (chkN_join _ 16384 11 close_blk_16384 close_blk_18432) (chkN_join _ 20480 11 close_blk_20480 close_blk_22528)) (chkN_join _ 24576 12 (chkN_join _ 24576 11 close_blk_24576 close_blk_26624) (chkN_join _ 28672 11 close_blk_28672 close_blk_30720))))
 end Demeter.TickClose
